@@ -56,6 +56,37 @@ case $ID in
     MIRIFLAGS="-Zmiri-ignore-leaks -Zmiri-many-seeds=0..32" T cargo +nightly miri test --offline --test seed_demo; without=$?
     git apply $S/patch.diff
     MIRIFLAGS="-Zmiri-ignore-leaks -Zmiri-many-seeds=0..32" T cargo +nightly miri test --offline --test seed_demo; with=$? ;;
+  C08-3)
+    cp $S/demo.rs tests/seed_demo.rs; T cargo test --offline --test seed_demo; without=$?
+    git apply $S/patch.diff; T cargo test --offline --test seed_demo; with=$? ;;
+  C08-4)
+    git apply $S/demo_tests.diff; T cargo test --offline --lib c08_; without=$?
+    clean; git apply $S/patch.diff && git apply $S/demo_tests.diff; T cargo test --offline --lib c08_; with=$? ;;
+  C11-3)
+    git apply $S/demo_hooks_on_head.diff; cp $S/demo.rs src/debt/demo_c11_change1.rs; T cargo test --offline --lib demo_c11_change1 -- --test-threads=1; without=$?
+    clean; git apply $S/patch.diff && git apply $S/demo_hooks_on_change1.diff; cp $S/demo.rs src/debt/demo_c11_change1.rs; T cargo test --offline --lib demo_c11_change1 -- --test-threads=1; with=$? ;;
+  C04-3)
+    git apply $S/hooks_on_clean.diff; cp $S/demo.rs src/seeded_demo.rs; T cargo test --offline --lib seeded_demo; without=$?
+    clean; git apply $S/patch.diff && git apply $S/hooks_on_change1.diff; cp $S/demo.rs src/seeded_demo.rs; T cargo test --offline --lib seeded_demo; with=$? ;;
+  C05-3)
+    python3 $S/apply_demo_hooks.py $S; T cargo test --offline --lib seeded_demo -- --test-threads=1; without=$?
+    clean; rm -f src/seeded_hook.rs src/seeded_demo.rs; git apply $S/patch.diff && python3 $S/apply_demo_hooks.py $S; T cargo test --offline --lib seeded_demo -- --test-threads=1; with=$? ;;
+  C06-3)
+    # not executable on x86: the demonstration is the written execution in demo.md; the hook
+    # stands in for the stale read of the list head (STALE_HEAD=1)
+    git apply $S/demo_hook.diff; cp $S/demo.rs tests/seed_demo.rs; RUSTFLAGS="--cfg seeded_demo" T cargo test --offline --test seed_demo; without=$?
+    git apply $S/patch.diff; STALE_HEAD=1 RUSTFLAGS="--cfg seeded_demo" T cargo test --offline --test seed_demo; with=$? ;;
+  C07-3)
+    mkdir -p SEEDED/demo_crate && cp -r $S/demo_crate/* SEEDED/demo_crate/
+    (cd SEEDED/demo_crate && MIRIFLAGS="-Zmiri-disable-weak-memory-emulation" T cargo +nightly miri run --offline --bin demo1); without=$?
+    git apply $S/patch.diff
+    (cd SEEDED/demo_crate && MIRIFLAGS="-Zmiri-disable-weak-memory-emulation" T cargo +nightly miri run --offline --bin demo1); with=$? ;;
+  C07-4)
+    mkdir -p SEEDED/demo_crate && cp -r /verif/seeded/C07-3/demo_crate/* SEEDED/demo_crate/
+    git apply $S/demo_hook.diff
+    (cd SEEDED/demo_crate && RUSTFLAGS="--cfg arc_swap_demo_hook" MIRIFLAGS="-Zmiri-disable-weak-memory-emulation" T cargo +nightly miri run --offline --bin demo2); without=$?
+    git apply $S/patch.diff
+    (cd SEEDED/demo_crate && RUSTFLAGS="--cfg arc_swap_demo_hook" MIRIFLAGS="-Zmiri-disable-weak-memory-emulation" T cargo +nightly miri run --offline --bin demo2); with=$? ;;
   *)
     # generic: integration test, no hooks
     cp $S/demo.rs tests/seed_demo.rs; T cargo test --offline --test seed_demo; without=$?
